@@ -9,9 +9,12 @@
   of the form `spec… input (model input) = true` for ALL inputs (no bound on tree size, proof
   length, indices).
 
-  Share proofs: `shareproof_verify_sound` is the full-strength statement (the NMT binding is DERIVED from the multi-leaf
-  range-proof soundness of `Proofs/NmtMultiSound.lean`); `shareproof_verify_sound_partial` is the older form that takes the
-  binding as a hypothesis.
+  Share proofs: the rule of the spec is `specShareVerify` = `specShareVerifyCore` ∧ inner-node clause.
+  `shareproof_verify_sound_partial` proves the CORE (counts, presence, row-proof rule, share groups bound to the square, and
+  NO ABORT: a panic is a failure of the property) with the NMT binding DERIVED from the multi-leaf range-proof soundness of
+  `Proofs/NmtMultiSound.lean`; `shareproof_verify_sound_of_nmtBinds_partial` is the older form that takes the binding as a
+  hypothesis.  The inner-node clause is evaluated on the implementation by the driver but not proved of the model
+  (`ShareProofFullStatement` shows the full statement).  `shareproof_verifyOrig_counterexample`: the original code aborts.
 
   Models: `Lumina/Model/Merkle.lean` (MerkleProof), `Lumina/Model/RowProof.lean` (RowProof, DAH hash,
   row_proof), `Lumina/Model/ShareProof.lean` (ShareProof over `Lumina/Model/Nmt.lean`).
@@ -233,41 +236,47 @@ open Lumina.Model.ShareProof (ShareProof) in
 theorem shareproof_verify_sound_of_slices [DecidableEq D] (H : HashFns D) (h : Lumina.Model.Nmt.HashFn)
     (hinj : InnerInj H) (hleaf : LeafInj H) (w : Nat) (sq all : List Bytes)
     (sp : ShareProof D) (rt : Option D) (hb : ∀ p ∈ sp.rowProof.proofs, p.total ≤ 2 ^ 63)
+    (hr90 : ∀ r ∈ sp.rowProof.rowRoots, r.length = 90) (hu32 : ∀ p ∈ sp.shareProofs, Lumina.Proofs.Decoders.U32 p)
     (hsb : Lumina.Model.ShareProof.rangeLoop h sp.namespaceId sp.data sp.shareProofs sp.rowProof.rowRoots = .ok →
       bindsAll H all sp.rowProof.rowRoots (sp.rowProof.proofs.map obsOf) = true →
       (∀ p ∈ sp.rowProof.proofs, p.total = all.length) →
       sp.shareProofs.length = sp.rowProof.rowRoots.length → sp.rowProof.rowRoots.length = sp.rowProof.proofs.length →
       slicesBound w sq sp.namespaceId sp.data (sp.shareProofs.map nobsOf) (sp.rowProof.proofs.map obsOf) = true) :
-    specShareVerify H w sq all (shareObsOf sp) rt
+    specShareVerifyCore H w sq all (shareObsOf sp) rt
       (shareResOf (Lumina.Model.ShareProof.verify H h sp rt)) = true := by
   unfold Lumina.Model.ShareProof.verify Lumina.Model.ShareProof.verifyWith
   by_cases h1 : sp.shareProofs.length ≠ sp.rowProof.rowRoots.length
-  · simp [h1, specShareVerify, shareResOf]
+  · simp [h1, specShareVerifyCore, shareResOf]
   · rw [if_neg h1]
     cases hs : Lumina.Model.ShareProof.sharesNeeded 0 sp.shareProofs with
     | error o =>
       have := sharesNeeded_error_ne_ok sp.shareProofs 0
-      cases o <;> simp_all [specShareVerify, shareResOf]
+      have hnp := sharesNeeded_error_ne_panic sp.shareProofs 0
+      cases o <;> simp_all [specShareVerifyCore, shareResOf]
     | ok needed =>
       simp only
       by_cases h2 : needed ≠ sp.data.length
-      · simp [h2, specShareVerify, shareResOf]
+      · simp [h2, specShareVerifyCore, shareResOf]
       · rw [if_neg h2]
         have hrow := rowproof_verify_sound H hinj hleaf all sp.rowProof rt hb
         cases hr : Lumina.Model.RowProof.verify H sp.rowProof rt with
-        | panic => simp [specShareVerify, shareResOf]
-        | err e => simp [specShareVerify, shareResOf]
+        | panic => rw [hr] at hrow; simp [specRowVerify, rowResOf] at hrow
+        | err e => simp [specShareVerifyCore, shareResOf]
         | ok =>
           rw [hr] at hrow
           simp only
+          have hnopanic := rangeLoop_ne_panic h sp.namespaceId sp.shareProofs sp.rowProof.rowRoots sp.data
+            (by have := (sharesNeeded_ok sp.shareProofs 0 needed hs).2
+                simp only [ne_eq, Decidable.not_not] at h2
+                omega) hr90 hu32
           cases hl : Lumina.Model.ShareProof.rangeLoop h sp.namespaceId sp.data sp.shareProofs sp.rowProof.rowRoots with
-          | panic => simp [specShareVerify, shareResOf]
-          | err e => simp [specShareVerify, shareResOf]
+          | panic => exact absurd hl hnopanic
+          | err e => simp [specShareVerifyCore, shareResOf]
           | ok =>
             obtain ⟨ha, hsum⟩ := sharesNeeded_ok sp.shareProofs 0 needed hs
             simp only [ne_eq, Decidable.not_not] at h1 h2
             have hrow' : specRowVerify H all (rowObsOf sp.rowProof) rt .ok = true := hrow
-            simp only [specShareVerify, shareResOf, shareObsOf, List.length_map, Bool.and_eq_true, beq_iff_eq,
+            simp only [specShareVerifyCore, shareResOf, shareObsOf, List.length_map, Bool.and_eq_true, beq_iff_eq,
               Bool.or_eq_true, Bool.not_eq_true']
             refine ⟨⟨⟨⟨?_, ha⟩, by omega⟩, hrow'⟩, ?_⟩
             · simpa [rowObsOf] using h1
@@ -301,19 +310,21 @@ open Lumina.Model.ShareProof (ShareProof) in
     ("`all` are the NMT roots of the axes of `sq`, and an nmt-rs range proof accepted against such a root, for a range
     inside the axis, proves exactly that range under its namespace").  Superseded by `shareproof_verify_sound`, which
     derives the binding; kept because it is independent of how the square is represented. -/
-theorem shareproof_verify_sound_partial [DecidableEq D] (H : HashFns D) (h : Lumina.Model.Nmt.HashFn)
+theorem shareproof_verify_sound_of_nmtBinds_partial [DecidableEq D] (H : HashFns D) (h : Lumina.Model.Nmt.HashFn)
     (hinj : InnerInj H) (hleaf : LeafInj H) (w : Nat) (sq all : List Bytes) (hn : NmtBinds h w sq all)
-    (sp : ShareProof D) (rt : Option D) (hb : ∀ p ∈ sp.rowProof.proofs, p.total ≤ 2 ^ 63) :
-    specShareVerify H w sq all (shareObsOf sp) rt
+    (sp : ShareProof D) (rt : Option D) (hb : ∀ p ∈ sp.rowProof.proofs, p.total ≤ 2 ^ 63)
+    (hr90 : ∀ r ∈ sp.rowProof.rowRoots, r.length = 90) (hu32 : ∀ p ∈ sp.shareProofs, Lumina.Proofs.Decoders.U32 p) :
+    specShareVerifyCore H w sq all (shareObsOf sp) rt
       (shareResOf (Lumina.Model.ShareProof.verify H h sp rt)) = true :=
-  shareproof_verify_sound_of_slices H h hinj hleaf w sq all sp rt hb
+  shareproof_verify_sound_of_slices H h hinj hleaf w sq all sp rt hb hr90 hu32
     (fun hl hbind htot h1 hlen => slicesBound_of_ok H h w sq all hn sp.namespaceId sp.shareProofs
       sp.rowProof.rowRoots sp.rowProof.proofs sp.data hl hbind htot h1 hlen)
 
 open Lumina.Model.ShareProof (ShareProof) in
 open Lumina.Model.Eds (Eds Dah) in
-/-- **share proofs fail if any proven root, share or inner node is altered or the counts do not match** — FULL
-    strength: for every extended square `e` of power-of-two width with the quadrant parity flags and shares of at least
+/-- **share proofs fail if any proven root or share is altered or the counts do not match, and never abort** — the
+    CORE of the rule (`specShareVerifyCore`; PARTIAL: the inner-node clause of `specShareVerify` is not proved of the
+    model, see `ShareProofFullStatement`), at full strength otherwise: for every extended square `e` of power-of-two width with the quadrant parity flags and shares of at least
     29 bytes (what `ExtendedDataSquare::new` establishes: `SquareShape`), its DAH, every share proof and every data
     root, `specShareVerify` holds of the model's verdict, with `sq` = the raw square and `all` = the DAH's row and
     column roots.  The NMT binding is derived (`NmtMulti.nmtBinds_of_eds`, from the multi-leaf range-proof soundness
@@ -324,31 +335,33 @@ open Lumina.Model.Eds (Eds Dah) in
     What is NOT claimed because nmt-rs does not bind it: ranges with `end > width` (the spec conditions on
     `end ≤ w`): a range proof carries no tree size, the verifier derives the shape from `(start, #siblings)`, so a
     range claimed beyond the real width can be accepted for shares that sit elsewhere (see `design_notes/C13.md`). -/
-theorem shareproof_verify_sound [DecidableEq D] (H : HashFns D) (h : Lumina.Model.Nmt.HashFn)
+theorem shareproof_verify_sound_partial [DecidableEq D] (H : HashFns D) (h : Lumina.Model.Nmt.HashFn)
     (hinj : InnerInj H) (hleaf : LeafInj H) (hk : Lumina.Proofs.Nmt.HashOK h)
     (e : Eds) (k : Nat) (hsq : Lumina.Proofs.NsData.SquareShape e) (hw : e.width = 2 ^ k)
     (dah : Dah) (hd : Dah.ofEds h e = .ok dah)
     (sp : ShareProof D) (rt : Option D) (hb : ∀ p ∈ sp.rowProof.proofs, p.total ≤ 2 ^ 63)
-    (hns : sp.namespaceId.length = 29) (hwf : ∀ p ∈ sp.shareProofs, ∀ x ∈ p.siblings, x.WF) :
-    specShareVerify H e.width (Lumina.Proofs.Sample.rawSquare e) dah.allRootsBytes (shareObsOf sp) rt
+    (hns : sp.namespaceId.length = 29) (hwf : ∀ p ∈ sp.shareProofs, ∀ x ∈ p.siblings, x.WF)
+    (hr90 : ∀ r ∈ sp.rowProof.rowRoots, r.length = 90) (hu32 : ∀ p ∈ sp.shareProofs, Lumina.Proofs.Decoders.U32 p) :
+    specShareVerifyCore H e.width (Lumina.Proofs.Sample.rawSquare e) dah.allRootsBytes (shareObsOf sp) rt
       (shareResOf (Lumina.Model.ShareProof.verify H h sp rt)) = true :=
-  shareproof_verify_sound_of_slices H h hinj hleaf e.width _ _ sp rt hb
+  shareproof_verify_sound_of_slices H h hinj hleaf e.width _ _ sp rt hb hr90 hu32
     (fun hl hbind htot h1 hlen =>
       Lumina.Proofs.NmtMulti.slicesBound_of_ok' H h e.width _ _ (Lumina.Proofs.NmtMulti.nmtBinds_of_eds hk hsq hw hd)
         sp.namespaceId hns sp.shareProofs sp.rowProof.rowRoots sp.rowProof.proofs sp.data hwf hl hbind htot h1 hlen)
 
 /-- the same in reduction form for the NMT hash (satisfiable by real hashes): the property holds, or the NMT hash has
     an explicit collision -/
-theorem shareproof_verify_sound_or_collision [DecidableEq D] (H : HashFns D) (h : Lumina.Model.Nmt.HashFn)
+theorem shareproof_verify_sound_or_collision_partial [DecidableEq D] (H : HashFns D) (h : Lumina.Model.Nmt.HashFn)
     (hinj : InnerInj H) (hleaf : LeafInj H) (hl : Lumina.Proofs.Nmt.HashLen h)
     (e : Lumina.Model.Eds.Eds) (k : Nat) (hsq : Lumina.Proofs.NsData.SquareShape e) (hw : e.width = 2 ^ k)
     (dah : Lumina.Model.Eds.Dah) (hd : Lumina.Model.Eds.Dah.ofEds h e = .ok dah)
     (sp : Lumina.Model.ShareProof.ShareProof D) (rt : Option D) (hb : ∀ p ∈ sp.rowProof.proofs, p.total ≤ 2 ^ 63)
-    (hns : sp.namespaceId.length = 29) (hwf : ∀ p ∈ sp.shareProofs, ∀ x ∈ p.siblings, x.WF) :
-    specShareVerify H e.width (Lumina.Proofs.Sample.rawSquare e) dah.allRootsBytes (shareObsOf sp) rt
+    (hns : sp.namespaceId.length = 29) (hwf : ∀ p ∈ sp.shareProofs, ∀ x ∈ p.siblings, x.WF)
+    (hr90 : ∀ r ∈ sp.rowProof.rowRoots, r.length = 90) (hu32 : ∀ p ∈ sp.shareProofs, Lumina.Proofs.Decoders.U32 p) :
+    specShareVerifyCore H e.width (Lumina.Proofs.Sample.rawSquare e) dah.allRootsBytes (shareObsOf sp) rt
       (shareResOf (Lumina.Model.ShareProof.verify H h sp rt)) = true ∨ ∃ x y, x ≠ y ∧ h x = h y := by
   by_cases hi : Function.Injective h
-  · exact Or.inl (shareproof_verify_sound H h hinj hleaf ⟨hi, hl⟩ e k hsq hw dah hd sp rt hb hns hwf)
+  · exact Or.inl (shareproof_verify_sound_partial H h hinj hleaf ⟨hi, hl⟩ e k hsq hw dah hd sp rt hb hns hwf hr90 hu32)
   · right
     unfold Function.Injective at hi
     have : ∃ x y, h x = h y ∧ x ≠ y := by
@@ -361,6 +374,37 @@ theorem shareproof_verify_sound_or_collision [DecidableEq D] (H : HashFns D) (h 
       exact hn ⟨a, b, hab, hne⟩
     obtain ⟨x, y, h1, h2⟩ := this
     exact ⟨x, y, h2, h1⟩
+
+/-- The full share-proof rule of `Spec/C13.lean` (`specShareVerify` = `specShareVerifyCore` ∧ the inner-node clause
+    `siblingsBound`: each in-width group's NMT siblings together with its shares recompute the proven row root).
+    PROVED of the model: the core (`shareproof_verify_sound_partial`).  NOT yet proved of the model: the inner-node
+    clause — it needs "nmt-rs `check_range_proof` accepted against the root of a perfect tree ⇒ the left-to-right
+    recomputation over that tree reproduces the root", which (like the share binding) holds only up to collisions of
+    the NMT hash and belongs with the NMT range-proof soundness lemmas being reworked (audit X1).  The clause IS
+    evaluated on every implementation result by the driver (`specShareVerify`, SHA-256). -/
+def ShareProofFullStatement {D : Type} [DecidableEq D] (H : HashFns D) (h : Lumina.Model.Nmt.HashFn)
+    (e : Lumina.Model.Eds.Eds) (dah : Lumina.Model.Eds.Dah) (sp : Lumina.Model.ShareProof.ShareProof D)
+    (rt : Option D) : Prop :=
+  specShareVerify H h e.width (Lumina.Proofs.Sample.rawSquare e) dah.allRootsBytes
+    { data := sp.data, ns := sp.namespaceId,
+      sproofs := sp.shareProofs.map (fun p => { start := p.start, end_ := p.end_, isAbsence := p.isAbsence,
+                                                 siblings := p.siblings.map Lumina.Model.Nmt.NsHash.toBytes }),
+      row := rowObsOf sp.rowProof } rt
+    (shareResOf (Lumina.Model.ShareProof.verify H h sp rt)) = true
+
+/-- The ORIGINAL `ShareProof::verify` (before /repo 292f2b8) violates the property: two range proofs of 2^31 leaves
+    each make the `u32` sum `shares_needed` overflow — the verification of a decodable proof ABORTS (debug build; in a
+    release build the sum wraps to 0, an empty `data` passes the count check and slicing it panics).  Whatever the
+    hashes, roots and data are. -/
+theorem shareproof_verifyOrig_counterexample :
+    let p : Lumina.Model.Nmt.NsProof := ⟨0, 2147483648, [], true, false, none⟩
+    let sp : Lumina.Model.ShareProof.ShareProof Term :=
+      { data := [], namespaceId := [], shareProofs := [p, p],
+        rowProof := { rowRoots := [[], []], proofs := [], startRow := 0, endRow := 1 } }
+    Lumina.Model.ShareProof.verifyOrig termFns (fun _ => []) sp none = .panic ∧
+      specShareVerifyCore termFns 2 [] [] (shareObsOf sp) none
+        (shareResOf (Lumina.Model.ShareProof.verifyOrig termFns (fun _ => []) sp none)) = false := by
+  decide
 
 open Lumina.Model.ShareProof (ShareProof) in
 open Lumina.Model.Eds (Eds Dah) in
@@ -377,7 +421,7 @@ theorem shareproof_build_complete [DecidableEq D] (H : HashFns D) (h : Lumina.Mo
     (hne : ranges ≠ []) (hrows : r0 + ranges.length ≤ e.width)
     (hrg : ∀ i s en shares, ranges[i]? = some (s, en) → e.row? (r0 + i) = some shares →
       s < en ∧ en ≤ e.width ∧ ∀ sh ∈ (shares.drop s).take (en - s), sh.ns = ns) :
-    specShareBuild
+    specShareBuildVerifies
       (match Lumina.Model.ShareProof.build H h e dah ns r0 ranges with
        | .ok sp => shareResOf (Lumina.Model.ShareProof.verify H h sp
            (some (Lumina.Model.RowProof.dahHash H (dah.rowRoots.map Lumina.Model.Nmt.NsHash.toBytes)
